@@ -2,6 +2,7 @@ package rules
 
 import (
 	"fmt"
+	"go/token"
 	"go/types"
 
 	"golang.org/x/tools/go/ssa"
@@ -11,23 +12,25 @@ import (
 
 func init() {
 	register(&RuleSet{
-		Property: "C08",
-		Title:    "On one connection handlers run one at a time, in arrival order",
-		Run:      runC08,
+		Property:  "C08",
+		Title:     "On one connection handlers run one at a time, in arrival order",
+		Run:       runC08,
 		Technique: "path + goroutine census over the dispatch chain (SSA CFG dominance/path queries, call-graph closure, may-held lock sets)",
 		Explanation: "Decides, for every path of the connection loop and every function on the dispatch chain of the current source, the structural clauses " +
 			"R1 synchronous dispatch (the message returned by the per-iteration read is handed by a plain call — not go, not a channel send — to a function from which a handler invocation is reachable by plain calls, and every cycle through the read passes that call), " +
 			"R2 no go statement on the dispatch chain whose target reaches a handler invocation, " +
 			"R3 every connection constructor call site is followed on its success path by exactly one `go <connection loop>` and the loop is never called synchronously, " +
-			"R4 no exclusive lock may be held at a handler invocation on the chain (read locks allowed). " +
+			"R4 no exclusive lock may be held at a handler invocation on the chain (read locks allowed), " +
+			"R5 no function of the dispatch closure performs a blocking channel send/receive/select or wait (only non-blocking selects), so no shared queue or semaphore can couple connections. " +
 			"These are necessary conditions of C08; the check does not decide actual schedules, handler durations or RWMutex writer starvation.",
 		Rules: map[string]string{
 			"R1": "in the connection loop the read message flows by a plain call to the dispatch chain; no cycle through the read avoids the dispatch call except via the read-error exit",
 			"R2": "no `go` whose target reaches a handler invocation in any function of the dispatch closure",
 			"R3": "each connection constructor site: exactly one `go loop()` on the success path; loop never called synchronously",
 			"R4": "no exclusive sync.Mutex/RWMutex.Lock may be held at a handler invocation (or at a call leading to one) on the dispatch chain",
+			"R5": "no blocking channel operation / wait in any function of the dispatch closure",
 		},
-		MinInstances: map[string]int{"R1": 1, "R2": 1, "R3": 1, "R4": 1},
+		MinInstances: map[string]int{"R1": 1, "R2": 1, "R3": 1, "R4": 1, "R5": 1},
 		Assumptions:  []string{"application handlers are reached only through Handler.ServeDIAM invokes and calls of func(Conn,*Message) values"},
 	})
 }
@@ -290,6 +293,40 @@ func runC08(c *Ctx) {
 		if nSites == 0 {
 			r.Undecided("R3", "role:conn-constructor-sites", "-", "no call site of a function returning the connection type found")
 		}
+	}
+
+	// ---- R5: nothing on the dispatch chain blocks on state shared between connections ----
+	nBlock := 0
+	for _, f := range c.P.LibraryFuncs() {
+		if !closure[f] {
+			continue
+		}
+		flow.Instrs(f, func(in ssa.Instruction) {
+			what := ""
+			switch x := in.(type) {
+			case *ssa.Send:
+				what = "a blocking channel send"
+			case *ssa.UnOp:
+				if x.Op == token.ARROW {
+					what = "a blocking channel receive"
+				}
+			case *ssa.Select:
+				if x.Blocking {
+					what = "a blocking select"
+				}
+			case *ssa.Call:
+				if flow.IsCallTo(x, "sync", "WaitGroup", "Wait") || flow.IsCallTo(x, "sync", "Cond", "Wait") || flow.IsCallTo(x, "time", "", "Sleep") {
+					what = "a blocking wait (" + calleeLabel(x) + ")"
+				}
+			}
+			if what != "" {
+				nBlock++
+				r.Fail("R5", fname(f)+":blocking-op", c.pos(in), what+" on the dispatch chain: dispatch on one connection can be held up by handlers running on other connections (e.g. a shared semaphore or queue)")
+			}
+		})
+	}
+	if nBlock == 0 {
+		r.Ok("R5", "DispatchClosure:no-blocking-ops", "-", fmt.Sprintf("%d dispatch-chain functions contain no blocking channel operation or wait", len(closure)))
 	}
 
 	// ---- R4 ----
